@@ -181,6 +181,25 @@ func (d *Directory) AddTimeBucket(tbk *io.TimeBucketKey, f *io.TimeBucketInfo) (
 		}
 	}
 
+	// refuse schemas that cannot be stored faithfully: the file header keeps 32 bytes per column name,
+	// and the WAL encodes the number of columns (Epoch included) and the name lengths in one byte
+	// (longer names came back truncated after a reload; wider schemas made WAL replay panic)
+	const (
+		maxColumnNameBytes = 32
+		maxDataColumns     = 254
+	)
+	elementNames := f.GetElementNames()
+	if len(elementNames) > maxDataColumns {
+		return fmt.Errorf("too many columns (%d) in time bucket %s: at most %d are supported",
+			len(elementNames), tbk.String(), maxDataColumns)
+	}
+	for _, name := range elementNames {
+		if name == "" || len(name) > maxColumnNameBytes {
+			return fmt.Errorf("invalid column name %q in time bucket %s: names must be 1 to %d bytes long",
+				name, tbk.String(), maxColumnNameBytes)
+		}
+	}
+
 	dirname := d.GetPath()
 	for i, dataDirName := range datakeySplit {
 		subdirname := filepath.Join(dirname, dataDirName)
